@@ -16,16 +16,16 @@ THEOREMS = [
     "C01_history_non_interference", "C01_cache_entries_fresh",
     "C01_stale_cache_refuted_without_eviction", "C01_class_instance_no_leak",
     "C01_noLongerProvides_raises_iff", "C01_closure_is_reachability",
-    "C01_ledger_impl_is_inheritance", "C01_generated_add_interfaces_to_cls_eq_model",
-    "C01_generated_Provides_changed_eq_model", "C01_generated_classImplements_ordered_eq_model",
-    "C01_generated_classImplements_eq_model", "C01_generated_classImplementsOnly_eq_model",
-    "C01_generated_classImplementsFirst_eq_model", "C01_generated_implementedBy_class_provides_eq_model",
-    "C01_generated_Provides_eq_model", "C01_generated_directlyProvidedBy_eq_model",
-    "C01_generated_directlyProvides_eq_model", "C01_generated_alsoProvides_eq_model",
-    "C01_generated_noLongerProvides_eq_model", "C01_generated_step_eq_model",
-    "C01_generated_cache_keys_unique", "C01_lazy_answers_eq_eager",
-    "C01_lazy_provided_within_ledger", "C01_lazy_invariant",
-    "C01_generated_implementedBy_eq_model",
+    "C01_ledger_impl_is_inheritance", "C01_super_within_ledger",
+    "C01_generated_add_interfaces_to_cls_eq_model", "C01_generated_Provides_changed_eq_model",
+    "C01_generated_classImplements_ordered_eq_model", "C01_generated_classImplements_eq_model",
+    "C01_generated_classImplementsOnly_eq_model", "C01_generated_classImplementsFirst_eq_model",
+    "C01_generated_implementedBy_class_provides_eq_model", "C01_generated_Provides_eq_model",
+    "C01_generated_directlyProvidedBy_eq_model", "C01_generated_directlyProvides_eq_model",
+    "C01_generated_alsoProvides_eq_model", "C01_generated_noLongerProvides_eq_model",
+    "C01_generated_step_eq_model", "C01_generated_cache_keys_unique",
+    "C01_lazy_answers_eq_eager", "C01_lazy_provided_within_ledger",
+    "C01_lazy_invariant", "C01_generated_implementedBy_eq_model",
 ]
 DECL_PY = os.path.join(C.REPO, "src", "zope", "interface", "declarations.py")
 GEN = os.path.join(C.COQ, "Gen", "DeclKernel.v")
@@ -52,7 +52,10 @@ RULE = ("histories of 3-30 steps over <= 6 interfaces (random DAG), 0-2 metaclas
         "their instances as classes / objects (TypeError / AttributeError as data, BuiltinImplementationSpecifications "
         "cleaned per case); about 12% of the classes carry an old-style `__implemented__ = <interface | tuple | nested>` "
         "attribute (also as bases of new-style classes, with later classImplements / Only / First); 22% of the cases "
-        "embed the before/after-split shape of classImplements on a class that inherits; all four query forms + directlyProvidedBy "
+        "embed the before/after-split shape of classImplements on a class that inherits; classes made falsy by their "
+        "metaclass (__bool__ / __len__) and falsy instances go through every call; super(B, x) proxies (instances and "
+        "classes) are asked through implementedBy / providedBy / I.providedBy at random steps, and 14% of the cases "
+        "are the sibling-leaves shape Leaf1(View, Mixin1) / Leaf2(View, Mixin2) / View(Root) queried in both orders; all four query forms + directlyProvidedBy "
         "for every live instance and class at every step (40% of the cases) or for a random SUBSET of the instances "
         "and classes at a random subset of steps (which first queries happen when is part of the history), and at "
         "60% of the steps the class objects alone are asked first (providedBy(cls), I.providedBy(cls), "
@@ -96,13 +99,17 @@ class _Sim:
                 s |= self.up[b]
             self.up.append(s)
         # 0-2 metaclasses, possibly a hierarchy, each implementing 0-2 interfaces
+        self.tags = set()
         self.metas = []
         self.pym = []
         for k in range(rng.choice([0, 0, 1, 1, 2, 2])):
             bases = [0] if k == 1 and rng.random() < 0.5 else []
             l = [rng.randrange(self.ni) for _ in range(rng.choice([0, 1, 1, 2]))]
-            self.metas.append({"bases": bases, "l": l, "call": bool(l) or rng.random() < 0.5})
+            falsy = rng.choice([None, None, "bool", "len"])
+            self.metas.append({"bases": bases, "l": l, "call": bool(l) or rng.random() < 0.5, "falsy": falsy})
             self.pym.append(type("M", tuple(self.pym[b] for b in bases) or (type,), {}))
+            if falsy:
+                self.tags.add("falsy-class")
         self.cmeta = []     # effective metaclass id of each class (None = type)
         self.cbuiltin = []  # pool index of a built-in type used as a class, else None
         self.own = set()    # targets that certainly have their own __provides__ (("i", n) / ("c", n))
@@ -114,7 +121,6 @@ class _Sim:
         self.inst = []      # class of instance
         self.live = []
         self.ops = []
-        self.tags = set()
 
     # -- helpers
     def impl(self, c):
@@ -199,7 +205,7 @@ class _Sim:
         self.tags.add("builtin-type")
         return len(self.cbases) - 1
 
-    def new_class(self, bases=None):
+    def new_class(self, bases=None, plain=False):
         rng = self.rng
         n = len(self.cbases)
         if bases is None and n < 5 and rng.random() < 0.12 and len(self.pool_used) < 3:
@@ -210,7 +216,7 @@ class _Sim:
                 bs = rng.sample(range(n), min(k, n))
             else:
                 bs = bases
-            m = rng.randrange(len(self.metas)) if self.metas and rng.random() < 0.55 else None
+            m = rng.randrange(len(self.metas)) if self.metas and rng.random() < 0.55 and not plain else None
             try:
                 pb = tuple(self.pyc[b] for b in bs) or (object,)
                 k = type("K", pb, {}) if m is None else self.pym[m]("K", pb, {})
@@ -226,7 +232,7 @@ class _Sim:
         self.cbuiltin.append(None)
         self.cbases.append(bs)
         old, shape = None, None
-        if rng.random() < 0.12:
+        if rng.random() < 0.12 and not plain:
             # an old-style ``__implemented__ = ...`` attribute in the class body
             old = [rng.randrange(self.ni) for _ in range(rng.choice([0, 1, 1, 1, 2, 2, 3]))]
             shape = rng.choice(["single", "tuple", "tuple", "nested"])
@@ -235,7 +241,11 @@ class _Sim:
                 self.tags.add("old-style-over-declared-base")
         self.asked.append(list(old) if old is not None else [])
         self.inherit.append(old is None)
-        self.ops.append({"op": "NewClass", "bases": bs, "m": m, "md": self.mdirect(em), "old": old, "oldshape": shape})
+        ifalsy = rng.choice([None] * 5 + ["bool", "len"])
+        if ifalsy:
+            self.tags.add("falsy-instance")
+        self.ops.append({"op": "NewClass", "bases": bs, "m": m, "md": self.mdirect(em), "old": old, "oldshape": shape,
+                         "ifalsy": ifalsy})
         if len(bs) > 1:
             self.tags.add("multi-inherit")
         if em is not None:
@@ -366,6 +376,65 @@ class _Sim:
             self.obj_op(rng.choice(OBJ_OPS + ["DirectlyProvides", "AlsoProvides"]), ("i", o),
                         self.ilist(prefer=self.implied(self.inst[o])))
 
+    def maybe_super(self):
+        if self.ops and self.rng.random() < 0.22 and "qs_fixed" not in self.ops[-1]:
+            qs = self.super_queries(self.rng.choice([1, 1, 2, 3]))
+            if qs:
+                self.ops[-1]["qs_fixed"] = qs
+                self.tags.add("super-proxy")
+
+    def mro_rest(self, d, b):
+        """ids of the classes after b in the MRO of class d (``object`` and foreign classes left out)"""
+        mro = list(self.pyc[d].__mro__)
+        if self.pyc[b] not in mro:
+            return None
+        tail = mro[mro.index(self.pyc[b]) + 1:]
+        return [self.pyc.index(k) for k in tail if k in self.pyc]
+
+    def super_queries(self, n=2):
+        """random super(B, x) proxies over live instances / classes"""
+        rng = self.rng
+        out = []
+        targets = [("i", o) for o in self.live_insts() if self.cbuiltin[self.inst[o]] is None] + \
+                  [("c", c) for c in range(len(self.cbases)) if self.cbuiltin[c] is None]
+        for _ in range(n):
+            if not targets:
+                break
+            t = rng.choice(targets)
+            d = self.inst[t[1]] if t[0] == "i" else t[1]
+            cands = [self.pyc.index(k) for k in self.pyc[d].__mro__ if k in self.pyc and self.cbuiltin[self.pyc.index(k)] is None]
+            b = rng.choice(cands)
+            out.append([b, list(t), self.mro_rest(d, b)])
+        return out
+
+    def super_shape(self):
+        """Leaf1(View, Mixin1), Leaf2(View, Mixin2), View(Root): super(View, leaf1) and
+        super(View, leaf2) share View and the class after it but not the rest of the MRO"""
+        rng = self.rng
+        ni = len(self.ifaces)
+        if len(self.cbases) > 1:
+            return
+        mk = lambda bases: self.new_class(bases, plain=True)
+        root = mk([]); view = mk([root]); m1 = mk([]); m2 = mk([])
+        for c in (root, view, m1, m2):
+            if rng.random() < 0.85:
+                self.class_op(rng.choice(["Implementer", "ClassImplements"]), c, [rng.randrange(ni)], plain=True)
+        l1 = mk([view, m1]); l2 = mk([view, m2])
+        o1 = self.new_instance(l1); o2 = self.new_instance(l2)
+        t1 = ("i", o1) if rng.random() < 0.6 else ("c", l1)
+        t2 = ("i", o2) if rng.random() < 0.6 else ("c", l2)
+        q1 = [view, list(t1), self.mro_rest(l1, view)]
+        q2 = [view, list(t2), self.mro_rest(l2, view)]
+        first, second = (q1, q2) if rng.random() < 0.5 else (q2, q1)
+        self.ops[-1]["qs_fixed"] = [first]
+        if rng.random() < 0.5:
+            self.class_op(rng.choice(["Implementer", "ClassImplementsOnly", "ClassImplementsFirst"]),
+                          rng.choice([m1, m2, root, view]), [rng.randrange(ni)], plain=True)
+        else:
+            self.new_instance(rng.choice([l1, l2]))
+        self.ops[-1]["qs_fixed"] = [second, first]
+        self.tags.add("super-siblings")
+
     def split_shape(self, filler):
         """classImplements with both halves of its before/after split non-empty, on a class that
         inherits interfaces from a base: B implements X; C(B) declares d; classImplements(C, sub-of-d, y)"""
@@ -478,7 +547,10 @@ def _gen_case(rng, tier):
             if len(sim.ops) < 28:
                 sim.random_op(protect)
 
-    sim.new_class([])
+    if rng.random() < 0.14:
+        sim.super_shape()
+    else:
+        sim.new_class([])
     if rng.random() < 0.22:
         sim.split_shape(filler)
     if shape:
@@ -488,6 +560,7 @@ def _gen_case(rng, tier):
         sim.stale_shape(filler)
     while len(sim.ops) < nops:
         sim.random_op()
+        sim.maybe_super()
     ops = sim.ops[:30]
     allq = rng.random() < 0.4
     ncls = ninst = 0
@@ -506,6 +579,9 @@ def _gen_case(rng, tier):
         else:
             o["q"] = False
         # the class objects alone, before anything at this step computes implementedBy(cls)
+        # super proxies (random ones are chosen on a replay of the history's class / instance sets)
+        if o.get("qs_fixed"):
+            o["qs"] = o.pop("qs_fixed")
         r = rng.random()
         o["qp"] = True if r < 0.4 else ([x for x in range(ncls) if rng.random() < 0.5] if r < 0.65 else False)
     if not allq:
@@ -586,12 +662,16 @@ def _cp(cp):
     return "(Some %s)" % C.clist(["(%d, %d, %d, %s)" % (a[0], a[1], a[2], _l(a[3])) for a in cp])
 
 
+def _sp(sp):
+    return C.clist(["(%s, %d, %d, %d)" % (_l(a[0]), a[1], a[2], a[3]) for a in (sp or [])])
+
+
 def coq_case(case, obs, mode):
     steps = obs.get("steps", [])
     ops = case["ops"]
     if len(steps) != len(ops):   # the driver lost the case: make both checks fail
-        steps = [{"exc": 9, "q": None, "cp": None} for _ in ops]
-    body = C.clist(["(%s, (%d, %s, %s))" % (_op(o), s["exc"], _q(s["q"]), _cp(s.get("cp")))
+        steps = [{"exc": 9, "q": None, "cp": None, "sp": []} for _ in ops]
+    body = C.clist(["(%s, (%d, %s, %s, %s))" % (_op(o), s["exc"], _q(s["q"]), _cp(s.get("cp")), _sp(s.get("sp")))
                     for o, s in zip(ops, steps)])
     g = C.clist([_l(b) for b in case["ifaces"]])
     return "(%s, %s)" % (g, body)
@@ -639,7 +719,7 @@ def _py_op(o):
     if k == "NewClass":
         if o.get("bi") is not None:
             return "C%%d = %s    # %%d" % BUILTIN_POOL[o["bi"]].__name__
-        body = "{}"
+        body = {"bool": "{'__bool__': lambda self: False}", "len": "{'__len__': lambda self: 0}"}.get(o.get("ifalsy"), "{}")
         if o.get("old") is not None:
             items = ["I%d" % i for i in o["old"]]
             shape = o.get("oldshape", "tuple")
@@ -649,7 +729,7 @@ def _py_op(o):
                 v = "((%s), [(%s)])" % ("".join(x + ", " for x in items[:1]), "".join(x + ", " for x in items[1:]))
             else:
                 v = "(" + "".join(x + ", " for x in items) + ")"
-            body = "{'__implemented__': %s}" % v
+            body = "{'__implemented__': %s%s" % (v, "}" if body == "{}" else ", " + body[1:])
         return "C%%d = %s('C%%d', (%s), %s)" % ("type" if o.get("m") is None else "M%d" % o["m"],
                                                 "".join("C%d, " % b for b in o["bases"]) or "object,", body)
     if k == "NewInstance":
@@ -677,7 +757,8 @@ def replay_text(case, obs, mode):
     for i, bs in enumerate(case["ifaces"]):
         lines.append("I%d = InterfaceClass('I%d', (%s), {})" % (i, i, "".join("I%d, " % b for b in bs) or "Interface,"))
     for k, m in enumerate(case.get("metas", [])):
-        lines.append("M%d = type('M%d', (%s), {})" % (k, k, "".join("M%d, " % b for b in m["bases"]) or "type,"))
+        fb = {"bool": "{'__bool__': lambda self: False}", "len": "{'__len__': lambda self: 0}"}.get(m.get("falsy"), "{}")
+        lines.append("M%d = type('M%d', (%s), %s)" % (k, k, "".join("M%d, " % b for b in m["bases"]) or "type,", fb))
         if m.get("call", True):
             lines.append("implementer(%s)(M%d)" % (", ".join("I%d" % i for i in m["l"]), k))
     nc = no = 0
@@ -693,6 +774,10 @@ def replay_text(case, obs, mode):
         if k < len(steps):
             st = steps[k]
             s += "    # step %d" % k + (" raised %s" % st.get("excname") if st["exc"] else "")
+            if st.get("sp"):
+                s += "  super proxies %s -> [rest of MRO, implementedBy, providedBy, I.providedBy]=%s;" % (
+                    ", ".join("super(C%d, %s)" % (b, ("o%d" if t[0] == "i" else "C%d") % t[1]) for b, t, _r in (o.get("qs") or [])),
+                    json.dumps(st["sp"]))
             if st.get("cp") is not None:
                 s += "  class objects first [c, providedBy(C), I.providedBy(C), directlyProvidedBy(C)]=%s;" % json.dumps(st["cp"])
             if st["q"] is not None:
@@ -728,6 +813,27 @@ def _renumber_args(x, kind, n):
     return out
 
 
+def _renumber_qs(x, kind, n):
+    """super queries of a step after object (kind, n) is removed; None if one refers to it"""
+    out = []
+    for b, t, rest in x.get("qs") or []:
+        if kind == "i":
+            if t[0] == "i":
+                if t[1] == n:
+                    continue
+                if t[1] > n:
+                    t = ["i", t[1] - 1]
+        else:
+            if b == n or n in rest or (t[0] == "c" and t[1] == n):
+                return None
+            b = b - 1 if b > n else b
+            rest = [r - 1 if r > n else r for r in rest]
+            if t[0] == "c" and t[1] > n:
+                t = ["c", t[1] - 1]
+        out.append([b, t, rest])
+    return out
+
+
 def _valid(ops):
     """providedBy(t) arguments need a t that already has its own __provides__"""
     own = set()
@@ -756,6 +862,8 @@ def _remove0(ops, k):
         n = sum(1 for x in ops[:k] if x["op"] == "NewInstance")
         out = []
         for x in rest:
+            if x.get("qs"):
+                x["qs"] = _renumber_qs(x, "i", n)
             if "l" in x:
                 x["l"] = _renumber_args(x, "i", n)
                 if x["l"] is None:
@@ -780,6 +888,10 @@ def _remove0(ops, k):
             return None   # a subclass may inherit its metaclass from this class
         out = []
         for x in rest:
+            if x.get("qs"):
+                x["qs"] = _renumber_qs(x, "c", n)
+                if x["qs"] is None:
+                    return None
             if "l" in x:
                 x["l"] = _renumber_args(x, "c", n)
                 if x["l"] is None:
@@ -869,7 +981,7 @@ TECHNIQUE = ("Coq proof by induction over histories of a Gallina model of declar
              "kernel functions are re-translated from the source text on every run (fail-closed ast translator) and proved "
              "equal to the model; vm_compute correspondence with both implementations and a ledger-sandwich oracle on the "
              "implementation's answers")
-LEVEL_TEXT = ("Machine-checked theorems (Properties/C01.v, 29 theorems, closed under the global context) state for every "
+LEVEL_TEXT = ("Machine-checked theorems (Properties/C01.v, 30 theorems, closed under the global context) state for every "
               "history of the nine declaration calls, class/instance creation and drops that the model's providedBy/"
               "implementedBy answers equal the ledger's lower bound and lie in the admissible sandwich, that declarations "
               "on other instances never matter (history-level non-interference, which needs the cache eviction: refuted for "
